@@ -39,3 +39,21 @@ spec(lean="cut_tree_leave", module="AlgoCut", file=_CUT_TU, func="cut_tree",
      params=["ids", "pids"], tparams=["σ", "K"], callbacks=_CUT_LEAVE_CB, absent=["enter"], closures={"_leave": "cut_leave"}, tree_cols=_CUT_COLS,
      vars={"ids": "List Int", "pids": "List Int", "removals": "List Int"}, ret=_CUT_RES, fuel=True,
      doc="`swcgeom/core/tree_utils.py::cut_tree`, overload `cut_tree(tree, *, leave)` (the tree is its columns `ids`, `pids`)")
+
+# --- transforms/tree.py: CutByType.__call__ with its `leave` closure over the `removals` SET, CutByFurcationOrder._enter (the user callback it hands to cut_tree)
+_CUT_TT = "swcgeom/transforms/tree.py"
+spec(lean="type_leave", module="AlgoCut", file=_CUT_TT, cls="CutByType", func="__call__", nested="leave",
+     params=["n", "keep_children"], captures=["removals", "ids"], tree_cols={"x": {"id": "ids"}},
+     vars={"n": "Node@x", "keep_children": "List Bool", "removals": "Set Int", "ids": "List Int"}, ret="Bool",
+     doc="`swcgeom/transforms/tree.py::CutByType.__call__`, nested `leave` (`removals` is a set of node ids)")
+spec(lean="cut_by_type", module="AlgoCut", file=_CUT_TT, cls="CutByType", func="__call__",
+     params=["ids", "pids", "types", "ty"], tree_cols={"x": {"id": "ids", "pid": "pids", "type": "types"}},
+     vars={"ids": "List Int", "pids": "List Int", "types": "List Int", "ty": "Int", "removals": "Set Int", "y": _CUT_RES},
+     ret=_CUT_RES, fuel=True, closures={"leave": "type_leave"}, subst={"self.type": ("v.ty", "Int")},
+     doc="`swcgeom/transforms/tree.py::CutByType.__call__` (the tree is its columns `ids`, `pids`, `types`; `self.type` is the parameter `ty`)")
+spec(lean="order_enter", module="AlgoCut", file=_CUT_TT, cls="CutByFurcationOrder", func="_enter",
+     params=["ids", "pids", "max_order", "n", "parent_level"], tree_cols={"tree": {"id": "ids", "pid": "pids"}},
+     vars={"ids": "List Int", "pids": "List Int", "max_order": "Int", "n": "Node@tree", "parent_level": "Option Int", "level": "Int"},
+     ret="Int × Bool", subst={"self.max_furcation_order": ("v.max_order", "Int")},
+     doc="`swcgeom/transforms/tree.py::CutByFurcationOrder._enter`, the callback `CutByFurcationOrder.__call__` hands to `cut_tree` (`n` is a node "
+         "handle of the tree with the columns `ids`, `pids`; `self.max_furcation_order` is the parameter `max_order`)")
